@@ -71,8 +71,10 @@ theorem tracker_indexes_agree (h : List (Owner × Snapshot)) :
     simpa using this
 
 /-- **Batches are minimal.** After any history, the batches of the next `syncOwner` call never rewrite an
-address with the value the table already holds and never delete an address the table does not hold (the
-code relies on this: a batch delete of a missing key fails in the kernel). -/
+address with the value the table already holds and never delete an address the table does not hold.
+(The second half is load-bearing on a real kernel: the generic batch delete stops at the first missing key
+and `BpfMapBatchDelete` swallows that `ErrKeyNotExist`, so keys listed after a missing one would silently
+survive. The first half is an economy only.) -/
 theorem batches_minimal (h : List (Owner × Snapshot)) (o : Owner) (s : Snapshot) (t' : Tracker) (em : Emit)
     (hsync : syncOwner (runSync TK.empty h).t o s = some (t', em)) :
     (∀ p ∈ em.ups, alLookup p.1 (runSync TK.empty h).K ≠ some p.2) ∧
@@ -108,6 +110,70 @@ theorem resync_sends_nothing (h : List (Owner × Snapshot)) (o : Owner) (s : Sna
 
 example : liveAfter (fun _ => none) [("a", ⟨1, [7]⟩)] "a" = some ⟨1, [7]⟩ := by decide
 
+/-! ### failing batch syscalls (environment, not part of the property's histories) -/
+
+/-- **A failed update batch changes nothing.** For every history of `syncOwner` calls in which the update
+batch of any call may fail (the code then returns before the delete batch and before applying the
+snapshot), the table is exactly the union over the owners' latest snapshots *whose call completed*. -/
+theorem kernel_mirrors_completed_syncs (h : List (Owner × Snapshot × Outcome))
+    (hnd : ∀ p ∈ h, p.2.2 ≠ Outcome.delFail) (ip : Ip) (i : Nat) :
+    (kernelVal (runSyncO TK.empty (fun _ => none) h).1.K ip).testBit i = true ↔
+      ∃ o s, (runSyncO TK.empty (fun _ => none) h).2 o = some s ∧ ip ∈ s.ips ∧ s.bitmap.testBit i = true :=
+  (Inv_runSyncO h TK.empty _ Inv_empty hnd).kernel_bit ip i
+
+-- non-vacuity: the second call's update batch fails, the third completes
+example :
+    let h : List (Owner × Snapshot × Outcome) :=
+      [("a", ⟨1, [7]⟩, .ok), ("b", ⟨2, [7, 9]⟩, .updFail), ("c", ⟨4, [9]⟩, .ok)]
+    (runSyncO TK.empty (fun _ => none) h).1.K = [(9, 4), (7, 1)] ∧
+      (runSyncO TK.empty (fun _ => none) h).2 "b" = none := by decide
+
+/-- **A failed delete batch leaves the table ahead of the tracker** (the update batch is in the table, the
+snapshot is not applied): after `a ↦ {7,8}`, replacing it by `a ↦ {8}` with another bitmap while the delete
+batch fails leaves address 8 with the new bits although the tracker (and `runSyncO`'s owner map) still hold
+the old snapshot. This is the behaviour of the code as it is; it is repaired by the next theorem. -/
+theorem failed_delete_batch_leaves_table_ahead :
+    let r := runSyncO TK.empty (fun _ => none) [("a", ⟨1, [7, 8]⟩, .ok), ("a", ⟨2, [8]⟩, .delFail)]
+    kernelVal r.1.K 8 = 2 ∧ r.2 "a" = some ⟨1, [7, 8]⟩ ∧ alLookup "a" r.1.t.owners = some ⟨1, [7, 8]⟩ := by
+  decide
+
+/-- **Retrying the failed call repairs it.** After any history of completed calls, if a call's delete batch
+fails and the same call is retried successfully, the table again is exactly the union over the owners'
+latest snapshots, the retried one included. -/
+theorem retry_after_failed_delete_repairs (h : List (Owner × Snapshot)) (o : Owner) (s : Snapshot)
+    (ip : Ip) (i : Nat) :
+    let s0 := runSync TK.empty h
+    let s1 := (s0.syncO o s .delFail).1
+    let s2 := (s1.syncO o s .ok).1
+    (kernelVal s2.K ip).testBit i = true ↔
+      ∃ o' s', liveAfter (fun _ => none) (h ++ [(o, s)]) o' = some s' ∧ ip ∈ s'.ips ∧ s'.bitmap.testBit i = true := by
+  intro s0 s1 s2
+  have hI := Inv_runSync h TK.empty _ Inv_empty
+  have hlive : liveAfter (fun _ => none) (h ++ [(o, s)]) =
+      (if o = "" then liveAfter (fun _ => none) h else setOwner (liveAfter (fun _ => none) h) o s) := by
+    simp [liveAfter, List.foldl_append]
+  rw [hlive]
+  have key : Inv s2.t s2.K (if o = "" then liveAfter (fun _ => none) h
+      else setOwner (liveAfter (fun _ => none) h) o s) := by
+    show Inv ((s0.syncO o s .delFail).1.syncO o s .ok).1.t ((s0.syncO o s .delFail).1.syncO o s .ok).1.K _
+    unfold TK.syncO syncOwner
+    by_cases ho : o = ""
+    · simp only [ho, if_true]; exact hI
+    · simp only [ho, if_false, reduceCtorEq, false_and, true_and]
+      by_cases hd : (emitFor s0.t o s (affected s0.t o s)).dels ≠ []
+      · simp only [hd, not_false_eq_true, if_true, ho, if_false, reduceCtorEq, false_and]
+        exact Inv_retry_after_delFail hI o ho s
+      · simp only [hd, if_false, ho, reduceCtorEq, false_and]
+        -- the first call completed; the retry re-syncs the snapshot now held
+        have h1 := Inv_sync hI o ho s
+        have h2 := Inv_sync h1 o ho s
+        have : setOwner (setOwner (liveAfter (fun _ => none) h) o s) o s =
+            setOwner (liveAfter (fun _ => none) h) o s := by
+          funext x; unfold setOwner; by_cases hx : x = o <;> simp [hx]
+        rw [this] at h2
+        exact h2
+  exact key.kernel_bit ip i
+
 /-! ## Part 2 — the cache layer, every history of cache operations -/
 
 /-- What "a cached entry lists address `ip`" means in the statements below: some record of its answer
@@ -118,16 +184,18 @@ theorem listed_iff (ans : List Ans) (ip : Ip) : ip ∈ ansIps ans ↔ ∃ a ∈ 
 
 /-- `0.0.0.0` and `::` answers, records with an unparsable address and non-address records list nothing;
 an A record and an AAAA record spelling the same IPv4 address list the same key.
-(Code as it is: the 16-byte spellings of `0.0.0.0` — `::ffff:0.0.0.0` — are *not* treated as unspecified.) -/
+(Whether the 16-byte spelling `::ffff:0.0.0.0` counts as unspecified is not decided by the property; the
+model follows `netip` (it does not), the generators never produce it and nothing is compared on it.) -/
 theorem unspecified_lists_nothing :
     ansIps [.a4 0, .a6 0, .bad, .other] = [] ∧
-    ansIps [.a4 0x01020304, .a4m 0x01020304, .a6 (mapped4 0x01020304)] = [mapped4 0x01020304] ∧
-    ansIps [.a4m 0] = [mapped4 0] := by decide
+    ansIps [.a4 0x01020304, .a4m 0x01020304, .a6 (mapped4 0x01020304)] = [mapped4 0x01020304] := by decide
 
 /-- **Headline (full strength).** After ANY history of cache operations — answers cached, replaced or
-refreshed with other addresses or another bitmap, removed, removed as a family on a reject, expired on a
-lookup (cold or hot path), evicted by the janitor or the LRU limit, time passing, the deferred refresh
-worker running at any later point; several names, record types and upstream scopes listing the same
+refreshed with other addresses or another bitmap (keyed or with the derived key), removed, removed as a
+family on a reject, expired on a lookup (cold or hot path, whatever the expiry policy decides), evicted by
+the janitor or the LRU limit (whatever keys it picks), time passing, refresh tasks queued (whatever the
+refresh policy decides) and the deferred refresh worker running at any later point, the whole cache
+restored into a new generation on reload; several names, record types and upstream scopes listing the same
 address; zero bitmaps, empty and unspecified answers — bit `i` of what the kernel reads for `ip` is set
 exactly when some *currently cached* entry lists `ip` and has bit `i` in its domain bitmap. -/
 theorem table_mirrors_cache (cfg : Cfg) (ops : List COp) (ip : Ip) (i : Nat) :
@@ -159,11 +227,19 @@ theorem driver_mirror_flag (cfg : Cfg) (ops : List COp) :
 -- non-vacuity: two scopes of one name plus another name share an address; one expires on lookup, one is
 -- replaced with another address; a refresh queued for a since-replaced entry is dropped by the worker.
 example :
-    let ops : List COp := [.put "a.com.1" 10 none 0b01 [.a4 1, .a4 2], .put "a.com.1|up" 100 none 0b01 [.a4 1],
-      .put "b.com.1" 100 none 0b10 [.a4m 1, .a6 0], .sleep (10 * sec), .look "a.com.1" false,
-      .sleep (60 * sec), .look "b.com.1" false, .put "b.com.1" 100 none 0b10 [.a4 3], .work]
+    let ops : List COp := [.put "a.com.1" "a.com." 1 10 none 0b01 [.a4 1, .a4 2],
+      .put "a.com.1|up" "a.com." 1 100 none 0b01 [.a4 1],
+      .put "" "b.com." 1 100 none 0b10 [.a4m 1, .a6 0], .sleep (10 * sec), .look "a.com.1" true false,
+      .sleep (60 * sec), .look "b.com.1" false true, .put "b.com.1" "b.com." 1 100 none 0b10 [.a4 3], .work]
     let σ := crun (CState.init ⟨false, 0, 0⟩) ops
     σ.tk.K = [(mapped4 3, 0b10), (mapped4 1, 0b01)] ∧ σ.cache.length = 2 ∧ σ.pending = [] := by decide
+
+-- non-vacuity of the reload step: the restored generation gets other bitmaps, the table follows
+example :
+    let ops : List COp := [.put "a.com.1" "a.com." 1 100 none 0b01 [.a4 1, .a4 2],
+      .put "b.com.1" "b.com." 1 100 none 0b10 [.a4 1], .reload [("b.com.1", 0b100), ("a.com.1", 0)]]
+    let σ := crun (CState.init ⟨false, 0, 0⟩) ops
+    σ.tk.K = [(mapped4 1, 0b100)] ∧ σ.cache.length = 2 := by decide
 
 /-- the table also mirrors the tracker's own owner snapshots (so the tracker's owner index is the cache). -/
 theorem table_mirrors_tracker (cfg : Cfg) (ops : List COp) (ip : Ip) (i : Nat) :
@@ -183,11 +259,11 @@ theorem unguarded_worker_breaks_mirror :
             e.bitmap.testBit i = true) := by
   intro h
   have := h ⟨false, 0, 0⟩
-    [.put "k" 100 none 1 [.a4 1], .sleep (60 * sec), .look "k" false, .del "k", .work] (mapped4 1) 0
+    [.put "k" "k." 1 100 none 1 [.a4 1], .sleep (60 * sec), .look "k" false true, .del "k", .work] (mapped4 1) 0
   have hc : (crunUnguarded (CState.init ⟨false, 0, 0⟩)
-    [.put "k" 100 none 1 [.a4 1], .sleep (60 * sec), .look "k" false, .del "k", .work]).cache = [] := by decide
+    [.put "k" "k." 1 100 none 1 [.a4 1], .sleep (60 * sec), .look "k" false true, .del "k", .work]).cache = [] := by decide
   have hk : (kernelVal (crunUnguarded (CState.init ⟨false, 0, 0⟩)
-    [.put "k" 100 none 1 [.a4 1], .sleep (60 * sec), .look "k" false, .del "k", .work]).tk.K (mapped4 1)).testBit 0
+    [.put "k" "k." 1 100 none 1 [.a4 1], .sleep (60 * sec), .look "k" false true, .del "k", .work]).tk.K (mapped4 1)).testBit 0
       = true := by decide
   obtain ⟨key, e, hl, _, _⟩ := this.mp hk
   rw [hc] at hl
@@ -195,6 +271,6 @@ theorem unguarded_worker_breaks_mirror :
 
 -- the same history on the fixed machine: the task is dropped, the table is empty
 example : (crun (CState.init ⟨false, 0, 0⟩)
-    [.put "k" 100 none 1 [.a4 1], .sleep (60 * sec), .look "k" false, .del "k", .work]).tk.K = [] := by decide
+    [.put "k" "k." 1 100 none 1 [.a4 1], .sleep (60 * sec), .look "k" false true, .del "k", .work]).tk.K = [] := by decide
 
 end DaeVerif.C10.Props
